@@ -206,6 +206,28 @@ pub fn dispatch(k: &str, t: &[&str]) -> Option<String> {
         "op_nullable_checked_VS_mul" => nullable_checked!(NullableCheckedBinaryVSOperator, Multiplication<i64, i64, i64>, t, false, true),
         "op_nullable_checked_SV_sub" => nullable_checked!(NullableCheckedBinarySVOperator, Subtraction<i64, i64>, t, true, false),
         "op_nullable_checked_SV_mul" => nullable_checked!(NullableCheckedBinarySVOperator, Multiplication<i64, i64, i64>, t, true, false),
+        "op_dict_lookup_u8" | "op_dict_lookup_u16" => {
+            let mut ips = crate::stringpack::IndexedPackedStrings::default();
+            for h in t[0].split(',') { ips.push(unsafe { std::str::from_utf8_unchecked(&unhex(h)) }); }
+            let (ranges, backing) = ips.into_parts();
+            let mut sp = Scratchpad::new(5, HashMap::new());
+            sp.set(br::<u64>(1), ranges);
+            sp.set(br::<u8>(2), backing);
+            let res = if k == "op_dict_lookup_u8" {
+                sp.set(br::<u8>(0), vec_of::<u8>(t[1]));
+                let mut op = dict_lookup::DictLookup::<u8> { indices: br(0), dict_indices: br(1), dict_data: br(2), output: br(3) };
+                op.init(0, 16, &mut sp);
+                op.execute(false, &mut sp)
+            } else {
+                sp.set(br::<u16>(0), vec_of::<u16>(t[1]));
+                let mut op = dict_lookup::DictLookup::<u16> { indices: br(0), dict_indices: br(1), dict_data: br(2), output: br(3) };
+                op.init(0, 16, &mut sp);
+                op.execute(false, &mut sp)
+            };
+            let out = sp.get(br::<&str>(3));
+            let strs = if out.is_empty() { "-".to_string() } else { out.iter().map(|s| if s.is_empty() { "_".to_string() } else { hex(s.as_bytes()) }).collect::<Vec<_>>().join(",") };
+            Some(format!("{} {}", if res.is_err() { "err" } else { "ok" }, strs))
+        }
         "op_inverse_dict_lookup" => {
             let mut ips = crate::stringpack::IndexedPackedStrings::default();
             for h in t[0].split(',') { ips.push(unsafe { std::str::from_utf8_unchecked(&unhex(h)) }); }
